@@ -6,9 +6,19 @@ menpo/model/gmrf.py).  The per-edge inverted covariances `Bs` are a parameter of
 (so they cover `np.linalg.inv` and the truncated-SVD inverse alike); `inv_cov_symm_psd` and
 `truncated_inverse_symm_psd` (Lemmas/C12Inv.lean) discharge the symmetry / definiteness hypotheses for
 both, and `build_correct` puts everything together for the model's own constructor on exact data.
+
+Extensions (second round): `dense_general` (what the dense scatter computes on every digraph without self
+loops), rank truncation (`truncChecked_spec`, `buildTrunc_correct`, `truncated_precision_le`; the coded
+truncated-SVD formula equals the truncated pseudo-inverse: `svdTrunc_eq_specTrunc` in Lemmas/C12Trunc.lean),
+the object level (`gmrfModel_eq_vectorModel`, `gmrfModel_mean`, `gmrfModel_query_batch_eq_single`),
+`precision_pca`, the float32 storage bounds, and the tie of the model to the statement tables re-read from
+the source (`denseStep_eq_table`, …, `build_dispatch`).
 -/
 import MenpoModel.Lemmas.C12Bsr
 import MenpoModel.Lemmas.C12Inv
+import MenpoModel.Lemmas.C12DenseGen
+import MenpoModel.Lemmas.C12Trunc
+import MenpoModel.Core.C12Table
 
 set_option linter.unusedSimpArgs false
 set_option linter.unusedVariables false
@@ -440,6 +450,541 @@ example : Symm 2 [[2, 1], [1, 3]] ∧ PSD 2 (gram 2 2 (fun _ => 1) (fun r p => i
     have hj' : j = 0 ∨ j = 1 := by omega
     rcases hi' with h | h <;> rcases hj' with h' | h' <;> subst h <;> subst h' <;> rfl
   · exact gram_psd _ _ _ _ (fun _ _ => by norm_num)
+
+/-! ### EXTENSION: what the coded assembly computes on *every* directed graph without self loops
+
+The property excludes antiparallel pairs; the code accepts them.  The sparse assembly still denotes the
+sum over all edges (`bsr_denotes_sum` has no hypothesis on the triplets); the dense scatter keeps the sum
+on the diagonal blocks and the *last* writer on every off-diagonal block. -/
+
+/-- **dense scatter, any edge list without self loops** (antiparallel and repeated pairs allowed) -/
+theorem dense_general (m : Mode) (k n : Nat) (hk : 0 < k) (es : List (Nat × Nat)) (Bs : List Mat)
+    (hne : ∀ e ∈ es, e.1 ≠ e.2) (I J : Nat) (hI : I < n) (hJ : J < n) :
+    ent (dense m k n es Bs) I J = denseSpec m k es Bs I J := by
+  have := dense_fold_general m k n hk es Bs (zeros n) [] (fun _ _ => 0) hne
+    (by intro I J _ _; rw [ent_zeros]; simp [tripsEntFlat, tripsEnt_nil]) I J hI hJ
+  simpa [dense, denseSpec, lastOff] using this
+
+/-- with symmetric blocks the dense matrix is symmetric on every such edge list -/
+theorem dense_general_symmetric (m : Mode) (k n : Nat) (hk : 0 < k) (es : List (Nat × Nat)) (Bs : List Mat)
+    (hne : ∀ e ∈ es, e.1 ≠ e.2) (hB : ∀ B ∈ Bs, Symm (m.dim k) B) (I J : Nat) (hI : I < n) (hJ : J < n) :
+    ent (dense m k n es Bs) I J = ent (dense m k n es Bs) J I := by
+  rw [dense_general m k n hk es Bs hne I J hI hJ, dense_general m k n hk es Bs hne J I hJ hI]
+  unfold denseSpec
+  by_cases hd : I / k = J / k
+  · rw [if_pos hd, if_pos hd.symm]
+    exact precision_symmetric m k es Bs hB I J
+  · rw [if_neg hd, if_neg (fun h => hd h.symm)]
+    unfold lastOff
+    apply lastOff_fold_symm m k (I / k) (J / k) (I % k) (J % k) (Nat.mod_lt _ hk) (Nat.mod_lt _ hk) hd _ 0 0 rfl
+    intro eB heB
+    exact hB eB.2 (List.of_mem_zip heB).2
+
+/-- on an off-diagonal block the two storages differ exactly by what the overwritten edges had stored:
+`sparse − dense = Σ (all joining edges) − (last joining edge)` -/
+theorem sparse_minus_dense_offdiag (m : Mode) (k V : Nat) (hk : 0 < k) (es : List (Nat × Nat)) (Bs : List Mat)
+    (hne : ∀ e ∈ es, e.1 ≠ e.2) (I J : Nat) (hI : I < V * k) (hJ : J < V * k) (hd : I / k ≠ J / k) :
+    bsrEnt k (assemble V (allTrips m k es Bs)) I J - ent (dense m k (V * k) es Bs) I J =
+      tripsEntFlat k (allTrips m k es Bs) I J - lastOff m k es Bs (I / k) (J / k) (I % k) (J % k) := by
+  rw [dense_general m k (V * k) hk es Bs hne I J hI hJ,
+    bsr_denotes_sum k V _ I J ((Nat.div_lt_iff_lt_mul hk).2 hI)]
+  unfold denseSpec
+  rw [if_neg hd]
+
+/-- on the diagonal blocks the two storages agree on every such edge list -/
+theorem sparse_eq_dense_diag (m : Mode) (k V : Nat) (hk : 0 < k) (es : List (Nat × Nat)) (Bs : List Mat)
+    (hne : ∀ e ∈ es, e.1 ≠ e.2) (I J : Nat) (hI : I < V * k) (hJ : J < V * k) (hd : I / k = J / k) :
+    bsrEnt k (assemble V (allTrips m k es Bs)) I J = ent (dense m k (V * k) es Bs) I J := by
+  rw [dense_general m k (V * k) hk es Bs hne I J hI hJ,
+    bsr_denotes_sum k V _ I J ((Nat.div_lt_iff_lt_mul hk).2 hI)]
+  unfold denseSpec
+  rw [if_pos hd]
+
+/-- non-vacuity / witness: on the directed 2-cycle the dense off-diagonal entry is the one written by the
+second edge (its `(v2, v1)` block), the sparse one the sum of both -/
+example :
+    let B1 : Mat := [[2, 1], [1, 3]]
+    let B2 : Mat := [[5, 4], [4, 7]]
+    denseSpec .concat 1 [(0, 1), (1, 0)] [B1, B2] 0 1 = 4 ∧
+    ent (dense .concat 1 2 [(0, 1), (1, 0)] [B1, B2]) 0 1 = 4 ∧
+    bsrEnt 1 (assemble 2 (allTrips .concat 1 [(0, 1), (1, 0)] [B1, B2])) 0 1 = 5 ∧
+    ent (dense .concat 1 2 [(0, 1), (1, 0)] [B1, B2]) 0 0 = 2 + 7 := by
+  decide +kernel
+
+/-! ### EXTENSION: rank truncation (`n_components`) -/
+
+/-- **the model's truncated inverse, once its certificate is verified**: symmetric, positive
+semi-definite, `C·B = B·C = Π`, `Π·B = B·Π = B` (so `B·C·B = B`), `Π·Π = Π`, `Π` symmetric — `B` inverts
+`C` on the span of the kept eigenvectors and vanishes on the complement -/
+theorem truncChecked_spec (C : Mat) (d nc : Nat) (sp : List Rat × Mat) (B : Mat)
+    (h : truncChecked C d nc sp = some B) :
+    Symm d B ∧ PSD d B ∧
+    IsProd d C B (specProj d nc sp.2) ∧ IsProd d B C (specProj d nc sp.2) ∧
+    IsProd d (specProj d nc sp.2) B B ∧ IsProd d B (specProj d nc sp.2) B ∧
+    IsProd d (specProj d nc sp.2) (specProj d nc sp.2) (specProj d nc sp.2) ∧
+    Symm d (specProj d nc sp.2) := by
+  unfold truncChecked at h
+  split at h
+  · rename_i hc
+    injection h with h; subst h
+    obtain ⟨hs, τ, hτ⟩ := checkSpec_sound C d nc sp.1 sp.2 hc
+    have hpos : ∀ i, i < min nc d → sp.1.getD i 0 ≠ 0 := by
+      intro i hi
+      have := hτ.2.1 i hi (lt_of_lt_of_le hi (Nat.min_le_right _ _))
+      have h0 := hτ.1
+      intro h; rw [h] at this; linarith
+    obtain ⟨i1, i2, i3, i4, i5⟩ := specTrunc_identities d nc C sp.1 sp.2 hs hpos
+    exact ⟨(specTrunc_symm_psd d nc C sp.1 sp.2 hs).1, (specTrunc_symm_psd d nc C sp.1 sp.2 hs).2,
+      i1, i2, i3, i4, i5, specProj_symm d nc sp.2⟩
+  · exact absurd h (by simp)
+
+/-- `n_components ≥ d`: the truncated inverse is the exact inverse the `n_components=None` branch returns -/
+theorem truncChecked_full_rank_eq_inv (C : Mat) (d nc : Nat) (hnc : d ≤ nc) (sp : List Rat × Mat) (B B' : Mat)
+    (h : truncChecked C d nc sp = some B) (h' : invChecked C d = some B') (i j : Nat) (hi : i < d) (hj : j < d) :
+    ent B i j = ent B' i j := by
+  unfold truncChecked at h
+  split at h
+  · rename_i hc
+    injection h with h; subst h
+    obtain ⟨hs, τ, hτ⟩ := checkSpec_sound C d nc sp.1 sp.2 hc
+    have hmin : min nc d = d := Nat.min_eq_right hnc
+    have hpos : ∀ i, i < d → sp.1.getD i 0 ≠ 0 := by
+      intro i hi
+      have := hτ.2.1 i (by rw [hmin]; exact hi) hi
+      have h0 := hτ.1
+      intro h; rw [h] at this; linarith
+    exact isInv_unique d C _ B' (specTrunc_full_isInv d nc hnc C sp.1 sp.2 hs hpos) (invChecked_isInv C d B' h') i j hi hj
+  · exact absurd h (by simp)
+
+/-- **`GMRFVectorModel.__init__` with `n_components`** on data whose covariances have verified rational
+eigen-decompositions: the two storages hold the same symmetric, positive semi-definite, graph-sparse
+matrix (every simple graph or the edgeless one, both modes, both bias conventions) -/
+theorem buildTrunc_correct (m : Mode) (k V : Nat) (X : Mat) (N : Nat) (bias : Bool) (es : List (Nat × Nat))
+    (nc : Nat) (specs : List (List Rat × Mat)) (M : Model) (hk : 0 < k) (hs : SimpleEdges V es)
+    (hb : buildTrunc m k V X N bias es nc specs = some M) :
+    (∀ I J, I < V * k → J < V * k → bsrEnt k M.sparseP I J = ent M.denseP I J) ∧
+    (∀ I J, I < V * k → J < V * k → ent M.denseP I J = ent M.denseP J I) ∧
+    (∀ x, 0 ≤ qf (V * k) (ent M.denseP) x) ∧
+    (∀ I J, I < V * k → J < V * k → ent M.denseP I J ≠ 0 →
+      I / k = J / k ∨ (I / k, J / k) ∈ es ∨ (J / k, I / k) ∈ es) := by
+  unfold buildTrunc at hb
+  simp only at hb
+  split at hb
+  · -- edgeless
+    split at hb
+    · exact absurd hb (by simp)
+    · rename_i hlen
+      split at hb
+      · exact absurd hb (by simp)
+      · rename_i Bs hBs
+        injection hb with hb; subst hb
+        simp only
+        obtain ⟨hq, hlen'⟩ := mapM?_spec _ (fun B => Symm k B ∧ PSD k B)
+          (fun vs B h => ⟨(truncChecked_spec _ k nc vs.2 B h).1, (truncChecked_spec _ k nc vs.2 B h).2.1⟩) _ Bs hBs
+        have hlenV : Bs.length = V := by
+          rw [hlen', List.length_zip, List.length_range]
+          have : specs.length = V := by simpa using hlen
+          omega
+        refine ⟨fun I J hI hJ => diag_sparse_eq_dense k V hk Bs I J hI hJ, ?_, ?_, ?_⟩
+        · intro I J hI hJ
+          rw [diag_dense_eq_sum k V hk Bs I J hI hJ, diag_dense_eq_sum k V hk Bs J I hJ hI]
+          exact diag_symmetric k Bs (fun B hB => (hq B hB).1) I J
+        · intro x
+          rw [qf_congr (V * k) _ (tripsEntFlat k (diagTrips k 0 Bs)) x x
+            (fun I J hI hJ => diag_dense_eq_sum k V hk Bs I J hI hJ) (fun _ _ => rfl)]
+          exact diag_psd k V hk Bs hlenV (fun B hB => (hq B hB).2) x
+        · intro I J hI hJ hne
+          left
+          by_contra hcon
+          exact hne (by rw [diag_dense_eq_sum k V hk Bs I J hI hJ]; exact diag_block_diagonal k Bs I J hcon)
+  · split at hb
+    · exact absurd hb (by simp)
+    · split at hb
+      · exact absurd hb (by simp)
+      · rename_i Bs hBs
+        injection hb with hb; subst hb
+        simp only
+        obtain ⟨hq, _⟩ := mapM?_spec _ (fun B => Symm (m.dim k) B ∧ PSD (m.dim k) B)
+          (fun ees B h => ⟨(truncChecked_spec _ (m.dim k) nc ees.2 B h).1,
+            (truncChecked_spec _ (m.dim k) nc ees.2 B h).2.1⟩) _ Bs hBs
+        refine ⟨fun I J hI hJ => sparse_eq_dense m k V hk es Bs hs I J hI hJ, ?_, ?_, ?_⟩
+        · intro I J hI hJ
+          rw [dense_eq_sum m k V hk es Bs hs I J hI hJ, dense_eq_sum m k V hk es Bs hs J I hJ hI]
+          exact precision_symmetric m k es Bs (fun B hB => (hq B hB).1) I J
+        · intro x
+          rw [qf_congr (V * k) _ (tripsEntFlat k (allTrips m k es Bs)) x x
+            (fun I J hI hJ => dense_eq_sum m k V hk es Bs hs I J hI hJ) (fun _ _ => rfl)]
+          exact precision_psd m k V hk es Bs (fun e he => ⟨(hs.1 e he).1, (hs.1 e he).2.1⟩)
+            (fun B hB => (hq B hB).2) x
+        · intro I J hI hJ hne
+          rw [dense_eq_sum m k V hk es Bs hs I J hI hJ] at hne
+          exact precision_graph_sparse m k es Bs I J hne
+
+/-- block-wise domination carries over to the precision: if every edge block of one model is dominated
+by the corresponding block of another, so is the quadratic form of the whole precision -/
+theorem precision_qf_mono (m : Mode) (k V : Nat) (hk : 0 < k) (es : List (Nat × Nat)) (Bs Bs' : List Mat)
+    (hv : ∀ e ∈ es, e.1 < V ∧ e.2 < V)
+    (hdom : List.Forall₂ (fun B B' => ∀ y, qf (m.dim k) (ent B) y ≤ qf (m.dim k) (ent B') y) Bs Bs')
+    (x : Nat → Rat) :
+    qf (V * k) (tripsEntFlat k (allTrips m k es Bs)) x ≤ qf (V * k) (tripsEntFlat k (allTrips m k es Bs')) x := by
+  rw [precision_quadratic_form m k V hk es Bs hv x, precision_quadratic_form m k V hk es Bs' hv x]
+  unfold edgeForms
+  clear hv
+  induction hdom generalizing es with
+  | nil => simp
+  | cons hB _ ih =>
+    cases es with
+    | nil => simp
+    | cons e es =>
+      simp only [List.zipWith_cons_cons, List.sum_cons]
+      exact add_le_add (hB _) (ih es)
+
+/-- **rank truncation only lowers Mahalanobis distances**: with the same eigen-decompositions, the
+precision built with `n_components = nc` is dominated by the one built with `nc' ≥ nc` (in particular by
+the untruncated one) -/
+theorem truncated_precision_le (m : Mode) (k V : Nat) (hk : 0 < k) (es : List (Nat × Nat))
+    (Cs : List Mat) (specs : List (List Rat × Mat)) (nc nc' : Nat) (hle : nc ≤ nc')
+    (hv : ∀ e ∈ es, e.1 < V ∧ e.2 < V)
+    (hspec : List.Forall₂ (fun C sp => IsSpec (m.dim k) C sp.1 sp.2) Cs specs) (x : Nat → Rat) :
+    qf (V * k) (tripsEntFlat k (allTrips m k es (specs.map fun sp => specTrunc (m.dim k) nc sp.1 sp.2))) x ≤
+    qf (V * k) (tripsEntFlat k (allTrips m k es (specs.map fun sp => specTrunc (m.dim k) nc' sp.1 sp.2))) x := by
+  apply precision_qf_mono m k V hk es _ _ hv
+  induction hspec with
+  | nil => simp
+  | cons h _ ih =>
+    simp only [List.map_cons]
+    exact List.Forall₂.cons (fun y => specTrunc_mono _ nc nc' hle _ _ _ h y) ih
+
+/-! non-vacuity for the truncation theorems -/
+
+/-- `C = [[2,1],[1,2]] = 3·(1,1)(1,1)ᵀ/2 + 1·(1,−1)(1,−1)ᵀ/2`; keeping one component gives
+`(1,1)(1,1)ᵀ/(3·2)`; the certificate check passes for `n_components = 1` and `2` and rejects a wrong
+eigenvalue and an ill-separated cut -/
+example :
+    truncChecked [[2, 1], [1, 2]] 2 1 ([3, 1], [[1, 1], [1, -1]]) = some [[1/6, 1/6], [1/6, 1/6]] ∧
+    truncChecked [[2, 1], [1, 2]] 2 2 ([3, 1], [[1, 1], [1, -1]]) = some [[2/3, -1/3], [-1/3, 2/3]] ∧
+    truncChecked [[2, 1], [1, 2]] 2 7 ([3, 1], [[1, 1], [1, -1]]) = invChecked [[2, 1], [1, 2]] 2 ∧
+    truncChecked [[2, 1], [1, 2]] 2 1 ([4, 1], [[1, 1], [1, -1]]) = none ∧
+    truncChecked [[2, 0], [0, 2]] 2 1 ([2, 2], [[1, 0], [0, 1]]) = none := by
+  decide +kernel
+
+theorem forall_lt_two (P : Nat → Nat → Prop) (h : P 0 0 ∧ P 0 1 ∧ P 1 0 ∧ P 1 1) :
+    ∀ a b, a < 2 → b < 2 → P a b := by
+  intro a b ha hb
+  have ha' : a = 0 ∨ a = 1 := by omega
+  have hb' : b = 0 ∨ b = 1 := by omega
+  rcases ha' with h1 | h1 <;> rcases hb' with h2 | h2 <;> subst h1 <;> subst h2
+  · exact h.1
+  · exact h.2.1
+  · exact h.2.2.1
+  · exact h.2.2.2
+
+/-- numpy's contract is satisfiable over ℚ (a rational rotation), together with a rational
+eigen-decomposition and a common threshold: all hypotheses of `svdTrunc_eq_specTrunc` hold, and the two
+formulas indeed agree -/
+example :
+    let C : Mat := [[34/25, 12/25], [12/25, 41/25]]
+    let U : Mat := [[3/5, -4/5], [4/5, 3/5]]
+    let Vh : Mat := [[3/5, 4/5], [-4/5, 3/5]]
+    let W : Mat := [[3, 4], [-4, 3]]
+    IsSVD 2 C U [2, 1] Vh ∧ IsSpec 2 C [2, 1] W ∧ Cut 2 (min 1 2) [2, 1] 1 ∧ Cut 2 (min 1 2) [2, 1] 1 ∧
+    Symm 2 C ∧ svdTrunc 2 1 U [2, 1] Vh = specTrunc 2 1 [2, 1] W := by
+  intro C U Vh W
+  have hcut : Cut 2 (min 1 2) [2, 1] 1 := by
+    refine ⟨by norm_num, ?_, ?_⟩
+    · intro i hi _
+      have : i = 0 := by simp at hi; omega
+      subst this; decide +kernel
+    · intro i hi hid
+      have : i = 1 := by simp at hi; omega
+      subst this; decide +kernel
+  refine ⟨⟨?_, ?_, ?_, ?_⟩, (checkSpec_sound C 2 1 [2, 1] W (by decide +kernel)).1, hcut, hcut, ?_, ?_⟩
+  · exact forall_lt_two _ (by decide +kernel)
+  · exact forall_lt_two _ (by decide +kernel)
+  · exact forall_lt_two _ (by decide +kernel)
+  · intro i hi
+    have : i = 0 ∨ i = 1 := by omega
+    rcases this with h | h <;> subst h <;> decide +kernel
+  · exact forall_lt_two _ (by decide +kernel)
+  · decide +kernel
+
+/-- a model with `n_components = 1` builds on designed data (edgeless graph, two vertices with one
+feature: each covariance is `1 × 1`, eigenvector `(1)`) and on an edge in subtraction mode -/
+example :
+    (buildTrunc .concat 1 2 [[0, 1], [2, 0], [4, 5]] 3 false [] 1 [([4], [[1]]), ([7], [[1]])]).isSome = true ∧
+    (buildTrunc .sub 1 2 [[0, 1], [2, 0], [4, 5]] 3 false [(0, 1)] 1 [([3], [[1]])]).isSome = true := by
+  decide +kernel
+
+/-! ### EXTENSION: `GMRFModel` (object level) is `GMRFVectorModel` on the vectorised samples -/
+
+theorem getD_asVector (V k : Nat) (p : Mat) (I : Nat) (hI : I < V * k) :
+    (asVector V k p).getD I 0 = ent p (I / k) (I % k) := by
+  unfold asVector; exact getD_map_range _ _ I hI
+
+theorem asVector_length (V k : Nat) (p : Mat) : (asVector V k p).length = V * k := by
+  simp [asVector]
+
+theorem ent_asMatrix (V k : Nat) (samples : List Mat) (i I : Nat) (hi : i < samples.length) (hI : I < V * k) :
+    ent (asMatrix V k samples) i I = ent (samples.getD i []) (I / k) (I % k) := by
+  have h := getD_asVector V k (samples.getD i []) I hI
+  unfold ent at h ⊢
+  unfold asMatrix
+  rw [← h]
+  simp [List.getD_eq_getElem?_getD, hi]
+
+/-- `from_vector(as_vector(p)) = p` on the `V × k` entries -/
+theorem fromVector_asVector (V k : Nat) (hk : 0 < k) (p : Mat) (v a : Nat) (hv : v < V) (ha : a < k) :
+    ent (fromVector V k (asVector V k p)) v a = ent p v a := by
+  unfold fromVector
+  rw [ent_tab, if_pos ⟨hv, ha⟩]
+  have hlt : v * k + a < V * k := by
+    calc v * k + a < v * k + k := by omega
+      _ = (v + 1) * k := by rw [Nat.succ_mul]
+      _ ≤ V * k := Nat.mul_le_mul_right k hv
+  rw [getD_asVector V k p _ hlt, block_mod k v a ha]
+  have : (v * k + a) / k = v := by
+    rw [Nat.mul_comm, Nat.mul_add_div hk, Nat.div_eq_of_lt ha]; simp
+  rw [this]
+
+/-- `as_vector(from_vector(x)) = x` on the `V·k` coordinates -/
+theorem asVector_fromVector (V k : Nat) (hk : 0 < k) (x : List Rat) (I : Nat) (hI : I < V * k) :
+    (asVector V k (fromVector V k x)).getD I 0 = x.getD I 0 := by
+  rw [getD_asVector V k _ I hI]
+  unfold fromVector
+  rw [ent_tab, if_pos ⟨(Nat.div_lt_iff_lt_mul hk).2 hI, Nat.mod_lt _ hk⟩, Nat.div_add_mod' I k]
+
+/-- **`GMRFModel.__init__` is `GMRFVectorModel.__init__` on `as_matrix(samples)`** with
+`n_samples = len(samples)`: every precision theorem above applies to the object-level model -/
+theorem gmrfModel_eq_vectorModel (m : Mode) (k V : Nat) (samples : List Mat) (bias : Bool) (es : List (Nat × Nat)) :
+    buildObj m k V samples bias es = build m k V (samples.map (asVector V k)) samples.length bias es := rfl
+
+theorem build_mean (m : Mode) (k V : Nat) (X : Mat) (N : Nat) (bias : Bool) (es : List (Nat × Nat)) (M : Model)
+    (hb : build m k V X N bias es = some M) : M.mean = meanVec X N (V * k) := by
+  unfold build at hb
+  simp only at hb
+  split at hb <;> split at hb
+  · exact absurd hb (by simp)
+  · injection hb with hb; subst hb; rfl
+  · exact absurd hb (by simp)
+  · injection hb with hb; subst hb; rfl
+
+/-- **`GMRFModel.mean()`** is the point-wise mean of the samples, and vectorising it gives back
+`mean_vector` -/
+theorem gmrfModel_mean (m : Mode) (k V : Nat) (hk : 0 < k) (samples : List Mat) (bias : Bool)
+    (es : List (Nat × Nat)) (M : Model) (hN : 0 < samples.length)
+    (hb : buildObj m k V samples bias es = some M) :
+    (∀ v a, v < V → a < k →
+      ent (meanObj V k M) v a * (samples.length : Rat) = ∑ i ∈ range samples.length, ent (samples.getD i []) v a) ∧
+    (∀ I, I < V * k → (asVector V k (meanObj V k M)).getD I 0 = M.mean.getD I 0) := by
+  have hm := build_mean m k V _ _ bias es M hb
+  constructor
+  · intro v a hv ha
+    have hlt : v * k + a < V * k := by
+      calc v * k + a < v * k + k := by omega
+        _ = (v + 1) * k := by rw [Nat.succ_mul]
+        _ ≤ V * k := Nat.mul_le_mul_right k hv
+    unfold meanObj fromVector
+    rw [ent_tab, if_pos ⟨hv, ha⟩, hm]
+    rw [(gmrf_mean (asMatrix V k samples) samples.length (V * k) hN (v * k + a) hlt).1]
+    apply Finset.sum_congr rfl; intro i hi
+    rw [ent_asMatrix V k samples i _ (Finset.mem_range.1 hi) hlt, block_mod k v a ha]
+    have : (v * k + a) / k = v := by
+      rw [Nat.mul_comm, Nat.mul_add_div hk, Nat.div_eq_of_lt ha]; simp
+    rw [this]
+  · intro I hI
+    exact asVector_fromVector V k hk M.mean I hI
+
+/-- **`GMRFModel.mahalanobis_distance`**: a single instance and a one-element list are the same query,
+and entry `i` of a batched query is the single query of instance `i` (both storages) -/
+theorem gmrfModel_query_batch_eq_single (V k n : Nat) (P : Nat → Nat → Rat) (ps : List Mat) (mu : List Rat)
+    (i : Nat) (hi : i < ps.length) :
+    queryMatrix V k (.one (ps.getD i [])) = queryMatrix V k (.many [ps.getD i []]) ∧
+    (mahalSparse n P (subMean (queryMatrix V k (.many ps)) mu n)).getD i 0 =
+      (mahalSparse n P (subMean (queryMatrix V k (.one (ps.getD i []))) mu n)).getD 0 0 ∧
+    (mahalDense n P (subMean (queryMatrix V k (.many ps)) mu n)).getD i 0 =
+      (mahalDense n P (subMean (queryMatrix V k (.one (ps.getD i []))) mu n)).getD 0 0 := by
+  have hlen : i < (subMean (queryMatrix V k (.many ps)) mu n).length := by
+    simp [subMean, queryMatrix, asMatrix, hi]
+  have hrow : [(subMean (queryMatrix V k (.many ps)) mu n).getD i []] =
+      subMean (queryMatrix V k (.one (ps.getD i []))) mu n := by
+    simp [subMean, queryMatrix, asMatrix, List.getD_eq_getElem?_getD, hi]
+  obtain ⟨h1, h2⟩ := mahalanobis_batch_eq_single n P _ i hlen
+  rw [hrow] at h1 h2
+  exact ⟨rfl, h1, h2⟩
+
+/-- non-vacuity: an object-level model builds, and its mean is the mean point set -/
+example :
+    let samples : List Mat := [[[1, 2], [0, 1]], [[0, 1], [3, 3]], [[2, 2], [1, 0]], [[1, 0], [1, 5]],
+      [[3, 1], [2, 2]], [[0, 0], [1, 4]], [[2, 5], [1, 1]]]
+    (buildObj .sub 2 2 samples false [(0, 1)]).map (fun M => meanObj 2 2 M) =
+      some [[9/7, 11/7], [9/7, 16/7]] := by
+  decide +kernel
+
+/-! ### EXTENSION: `principal_components_analysis` of the precision -/
+
+theorem getD_map_inv (l : List Rat) (i : Nat) : (l.map (1 / ·)).getD i 0 = 1 / l.getD i 0 := by
+  simp only [List.getD_eq_getElem?_getD, List.getElem?_map]
+  cases l[i]? <;> simp
+
+/-- **PCA of the precision**: an eigen-decomposition `P = Σ λ_i w_i w_iᵀ/‖w_i‖²` with positive `λ` gives
+the covariance `P⁻¹` with the *same* eigenvectors and the inverted eigenvalues (what
+`init_from_covariance_matrix(…, is_inverse=True)` relies on), and the Mahalanobis form is the whitened
+norm of the PCA projections, `xᵀPx = Σ_i (w_i·x)²/(ν_i ‖w_i‖²)` with `ν_i = 1/λ_i` -/
+theorem precision_pca (n : Nat) (P : Mat) (lam : List Rat) (W : Mat) (h : IsSpec n P lam W)
+    (hpos : ∀ i, i < n → lam.getD i 0 ≠ 0) :
+    IsInv n P (specTrunc n n lam W) ∧
+    (∀ p q, ent (specTrunc n n lam W) p q = ent (specCov n (lam.map (1 / ·)) W) p q) ∧
+    (∀ z : Nat → Rat, qf n (ent P) z =
+      ∑ i ∈ range n, (∑ p ∈ range n, z p * ent W i p) ^ 2 / ((lam.map (1 / ·)).getD i 0 * rowDot n W i i)) := by
+  refine ⟨specTrunc_full_isInv n n (Nat.le_refl n) P lam W h hpos, ?_, ?_⟩
+  · intro p q
+    unfold specTrunc specCov gram
+    rw [Nat.min_self, ent_tab, ent_tab]
+    split
+    · simp only [sumTo_eq]
+      apply Finset.sum_congr rfl; intro i _
+      rw [getD_map_inv, div_div]
+    · rfl
+  · intro z
+    rw [qf_congr n (ent P) (ent (specCov n lam W)) z z (fun I J hI hJ => h.recon I J hI hJ) (fun _ _ => rfl)]
+    unfold specCov
+    rw [gram_qf]
+    apply Finset.sum_congr rfl; intro i _
+    rw [getD_map_inv]
+    by_cases hl : lam.getD i 0 = 0
+    · rw [hl]; simp
+    · by_cases hn : rowDot n W i i = 0
+      · rw [hn]; simp
+      · field_simp
+
+/-! ### EXTENSION: the float32 storage clause as an error bound
+
+Storing a block in single precision perturbs each of its entries by at most `ε` (half a unit in the last
+place of the largest entry).  The assembled precision then moves, entry by entry, by at most `ε` times
+the number of stored blocks at that block position (the degree of the vertex on a diagonal block, one on
+an off-diagonal block of a simple graph); no cancellation is involved. -/
+
+def tripsAt (ts : List Trip) (bi bj : Nat) : Nat := (ts.filter fun t => t.row = bi ∧ t.col = bj).length
+
+theorem storage_rounding_bound (ε : Rat) (ts ts' : List Trip)
+    (h : List.Forall₂ (fun t t' : Trip => t.row = t'.row ∧ t.col = t'.col ∧
+      ∀ a c, |ent t.blk a c - ent t'.blk a c| ≤ ε) ts ts') (bi bj a c : Nat) :
+    |tripsEnt ts bi bj a c - tripsEnt ts' bi bj a c| ≤ ε * (tripsAt ts bi bj : Rat) := by
+  induction h with
+  | nil => simp [tripsEnt_nil, tripsAt]
+  | @cons t t' ts ts' ht _ ih =>
+    rw [tripsEnt_cons, tripsEnt_cons]
+    obtain ⟨hr, hc, hb⟩ := ht
+    by_cases hp : t.row = bi ∧ t.col = bj
+    · have hp' : t'.row = bi ∧ t'.col = bj := ⟨hr ▸ hp.1, hc ▸ hp.2⟩
+      have hcount : tripsAt (t :: ts) bi bj = tripsAt ts bi bj + 1 := by
+        simp [tripsAt, List.filter_cons, hp]
+      rw [if_pos hp, if_pos hp', hcount]
+      push_cast
+      have e : ent t.blk a c + tripsEnt ts bi bj a c - (ent t'.blk a c + tripsEnt ts' bi bj a c) =
+          (ent t.blk a c - ent t'.blk a c) + (tripsEnt ts bi bj a c - tripsEnt ts' bi bj a c) := by ring
+      rw [e]
+      calc |ent t.blk a c - ent t'.blk a c + (tripsEnt ts bi bj a c - tripsEnt ts' bi bj a c)|
+          ≤ |ent t.blk a c - ent t'.blk a c| + |tripsEnt ts bi bj a c - tripsEnt ts' bi bj a c| := abs_add_le _ _
+        _ ≤ ε + ε * (tripsAt ts bi bj : Rat) := add_le_add (hb a c) ih
+        _ = ε * ((tripsAt ts bi bj : Rat) + 1) := by ring
+    · have hp' : ¬ (t'.row = bi ∧ t'.col = bj) := fun h => hp ⟨hr ▸ h.1, hc ▸ h.2⟩
+      have hcount : tripsAt (t :: ts) bi bj = tripsAt ts bi bj := by
+        simp [tripsAt, List.filter_cons, hp]
+      rw [if_neg hp, if_neg hp', hcount]
+      simpa using ih
+
+/-- the bound is attained: two blocks at the same position, each moved by `ε` in the same direction -/
+example :
+    |tripsEnt [⟨0, 0, [[1]]⟩, ⟨0, 0, [[2]]⟩] 0 0 0 0 - tripsEnt [⟨0, 0, [[1 + 1/8]]⟩, ⟨0, 0, [[2 + 1/8]]⟩] 0 0 0 0| =
+      (1/8 : Rat) * (tripsAt [⟨0, 0, [[1]]⟩, ⟨0, 0, [[2]]⟩] 0 0 : Rat) := by
+  decide +kernel
+
+/-- the sum of the absolute values of the stored entries at a block position -/
+def tripsAbs (ts : List Trip) (bi bj a c : Nat) : Rat :=
+  (ts.map fun t => if t.row = bi ∧ t.col = bj then |ent t.blk a c| else 0).sum
+
+/-- relative form: if every stored entry carries a relative rounding error of at most `u` (single
+precision: `u = 2⁻²⁴`), the assembled entry moves by at most `u · Σ |stored entries at that position|` —
+the bound the float32 clause of the oracle is derived from -/
+theorem storage_rounding_bound_rel (u : Rat) (ts ts' : List Trip)
+    (h : List.Forall₂ (fun t t' : Trip => t.row = t'.row ∧ t.col = t'.col ∧
+      ∀ a c, |ent t.blk a c - ent t'.blk a c| ≤ u * |ent t.blk a c|) ts ts') (bi bj a c : Nat) :
+    |tripsEnt ts bi bj a c - tripsEnt ts' bi bj a c| ≤ u * tripsAbs ts bi bj a c := by
+  induction h with
+  | nil => simp [tripsEnt_nil, tripsAbs]
+  | @cons t t' ts ts' ht _ ih =>
+    rw [tripsEnt_cons, tripsEnt_cons]
+    obtain ⟨hr, hc, hb⟩ := ht
+    have habs : tripsAbs (t :: ts) bi bj a c =
+        (if t.row = bi ∧ t.col = bj then |ent t.blk a c| else 0) + tripsAbs ts bi bj a c := by
+      simp [tripsAbs]
+    rw [habs]
+    by_cases hp : t.row = bi ∧ t.col = bj
+    · have hp' : t'.row = bi ∧ t'.col = bj := ⟨hr ▸ hp.1, hc ▸ hp.2⟩
+      rw [if_pos hp, if_pos hp', if_pos hp]
+      have e : ent t.blk a c + tripsEnt ts bi bj a c - (ent t'.blk a c + tripsEnt ts' bi bj a c) =
+          (ent t.blk a c - ent t'.blk a c) + (tripsEnt ts bi bj a c - tripsEnt ts' bi bj a c) := by ring
+      rw [e]
+      calc |ent t.blk a c - ent t'.blk a c + (tripsEnt ts bi bj a c - tripsEnt ts' bi bj a c)|
+          ≤ |ent t.blk a c - ent t'.blk a c| + |tripsEnt ts bi bj a c - tripsEnt ts' bi bj a c| := abs_add_le _ _
+        _ ≤ u * |ent t.blk a c| + u * tripsAbs ts bi bj a c := add_le_add (hb a c) ih
+        _ = u * (|ent t.blk a c| + tripsAbs ts bi bj a c) := by ring
+    · have hp' : ¬ (t'.row = bi ∧ t'.col = bj) := fun h => hp ⟨hr ▸ h.1, hc ▸ h.2⟩
+      rw [if_neg hp, if_neg hp', if_neg hp]
+      simpa using ih
+
+/-! ### EXTENSION: the model is the interpretation of the statement tables
+
+`GenProps/C12.lean` obliges the tables re-read from the live source to equal `modelDenseTable`,
+`modelTripTable`, …; these theorems say that the executable model the other theorems are about is exactly
+the interpretation of those tables. -/
+
+theorem denseStep_eq_table (m : Mode) (k n : Nat) (P : Mat) (eB : (Nat × Nat) × Mat) :
+    denseStep m k n P eB = denseStepT (modelDenseTable m) k n P eB := by
+  cases m <;> rfl
+
+theorem edgeTrips_eq_table (m : Mode) (k : Nat) (e : Nat × Nat) (B : Mat) :
+    edgeTrips m k e B = edgeTripsT (modelTripTable m) k e B := by
+  cases m <;> rfl
+
+theorem denseDiag_eq_table (k n v : Nat) (B : Mat) (Bs : List Mat) (P : Mat) :
+    denseDiagFrom k n v (B :: Bs) P =
+      denseDiagFrom k n (v + 1) Bs (denseStepT modelDiagDenseTable k n P ((v, v), B)) := rfl
+
+theorem diagTrips_eq_table (k v : Nat) (B : Mat) (Bs : List Mat) :
+    diagTrips k v (B :: Bs) = edgeTripsT modelDiagTripTable k (v, v) B ++ diagTrips k (v + 1) Bs := rfl
+
+theorem indptrStep_eq_table (rows ip : List Nat) (i : Nat) :
+    indptrStep rows ip i = indptrStepT modelIndptrEmpty modelIndptrSome rows ip i := by
+  unfold indptrStep indptrStepT
+  cases h : whereEq i rows 0 with
+  | nil => simp [modelIndptrEmpty, runIAsg]
+  | cons p ps => simp [modelIndptrSome, runIAsg]
+
+/-- the constructor dispatch of `__init__` as the model has it: both storages of `build` are what
+`ctorOf` selects -/
+theorem build_dispatch (m : Mode) (k V : Nat) (X : Mat) (N : Nat) (bias : Bool) (es : List (Nat × Nat)) (M : Model)
+    (hb : build m k V X N bias es = some M) :
+    ∃ Bs, (ctorOf es.isEmpty false).dense m k (V * k) es Bs = some M.denseP ∧
+      (ctorOf es.isEmpty true).sparse m k V es Bs = some M.sparseP := by
+  unfold build at hb
+  simp only at hb
+  cases he : es.isEmpty with
+  | true =>
+    simp only [he, if_true] at hb
+    split at hb
+    · exact absurd hb (by simp)
+    · rename_i Bs _
+      injection hb with hb; subst hb
+      exact ⟨Bs, rfl, rfl⟩
+  | false =>
+    simp only [he, Bool.false_eq_true, if_false] at hb
+    split at hb
+    · exact absurd hb (by simp)
+    · rename_i Bs _
+      injection hb with hb; subst hb
+      exact ⟨Bs, rfl, rfl⟩
 
 /-! ### known defect of the coded constructor (before `C12-scalar-feature-covariance`) -/
 
